@@ -136,6 +136,25 @@ def run_shard(modname, tier, seed, shard, nshards, replay_case=None):
                                'trace': f'case did not finish within {check.case_timeout}s (implementation hang?); '
                                         f'case hash {case_hash(case)}'}
                 break
+            except Exception as ex:     # noqa
+                # an exception the harness did not anticipate: when it was raised INSIDE pyctr (innermost frame under the
+                # repository) the implementation failed on an operation that succeeds on the tree the check was built against -
+                # that is an observation about the code, reported with the case as replay; anything else is a harness error
+                tb = traceback.extract_tb(ex.__traceback__)
+                inner = tb[-1] if tb else None
+                if inner is not None and os.path.abspath(inner.filename).startswith(os.path.join(os.path.abspath(REPO), 'pyctr')):
+                    where = f'{os.path.relpath(inner.filename, REPO)}:{inner.lineno}'
+                    outcome = {'kind': 'failing-input', 'case': case,
+                               'monitor': [f'pyctr raised {type(ex).__name__}: {ex} at {where} during an operation the check '
+                                           f'expects to succeed'],
+                               'key': f'raised.{type(ex).__name__}', 'observed': 'e:' + type(ex).__name__, 'model_output': None,
+                               'origin': origin}
+                    if outcome['key'] in known:
+                        stats['known_hits'][outcome['key']] = known[outcome['key']]
+                        outcome = None
+                        continue
+                    break
+                raise
             stats['evaluations'] += 1
             if res.info:
                 for k in res.info:
